@@ -301,6 +301,45 @@ def run(ctx):
     uses_new = any(t.callee and t.callee.short.endswith("edge::Edge::new") for t in ae.calls())
     ctx.require(enan and uses_new, "V4", "default-nan", "an edge read without <data> is built with Edge::new, whose weight is NaN", "edges read without <data> do not get a NaN weight", loc_str(ae.span))
 
+    # V4c: a value carried from one event to a later one must be consumed at most once
+    ctx.rule("V4c", "a weight that is parsed in one event and stored in a later one is killed before it can be stored again (no stale pending value)")
+    n_w = 0
+    for p in sorted(rscope):
+        b = prog.bodies[p]
+        if "graphml" not in b.short:
+            continue
+        f = flows.of(b)
+        for st in b.stmts():
+            if not (st.k == "assign" and st.lhs.has_deref() and st.lhs.fields()[-1:] == ["weight"] and st.lhs.ty == "f64"):
+                continue
+            n_w += 1
+            sl = f.slice_local(f._op_reads(st.rv.ops[0]) if st.rv.ops else set(), data_only=True)
+            carried = []
+            for n_ in sl:
+                if n_[0] != "L" or not b.local_name(n_[1]) or n_[1] <= b.arg_count:
+                    continue
+                defs = [dbb for (dbb, d) in b.assigns_to(n_[1])]
+                in_loop = [dbb for dbb in defs if st.bb in b.reachable_from(dbb) and dbb in b.reachable_from(st.bb)]
+                if not in_loop:
+                    continue
+                if any(b.dominates(dbb, st.bb) for dbb in in_loop):
+                    continue  # defined earlier in the same iteration
+                carried.append((n_[1], defs))
+            bad = []
+            carried.sort(key=lambda c: 0 if b.local_ty(c[0]) == "f64" else 1)
+            for (x, defs) in carried:
+                after = set()
+                for s_ in b.succ(st.bb):
+                    after |= b.reachable_from(s_, avoid=tuple(sorted(set(defs))))
+                if st.bb in after:
+                    bad.append(b.local_name(x))
+            key = "pending|" + b.short
+            if bad:
+                ctx.violation("V4c", key, "the weight stored at this point comes from `%s`, which is set in an earlier loop iteration and is not reset before the next store: an element without <data> inherits the previous element's weight" % bad[0], loc_str(st.span))
+            else:
+                ctx.ok("V4c", key, "the stored weight is parsed in the same iteration%s" % (" or its carrier is reset before reuse" if carried else ""), loc_str(st.span))
+    ctx.floor("V4c", "weight_stores_in_reader", n_w, 1)
+
     # ------------------------------------------------------------------ V5 order
     ctx.rule("V5", "nodes are written in position order and read back in document order")
     wfl = flows.of(wb)
